@@ -43,7 +43,7 @@ var allKinds = []weighted{
 	{"int", 10}, {"string", 10}, {"bool", 3}, {"int8", 2}, {"int64", 3}, {"uint64", 2}, {"myint", 4}, {"mystr", 2},
 	{"time", 2}, {"bytes", 2}, {"ptr", 5}, {"slice", 6}, {"seq", 2}, {"array", 2}, {"map", 4}, {"func", 2}, {"chan", 2},
 	{"any", 3}, {"iface", 2}, {"ifacelit", 1}, {"opt", 12}, {"tuple2", 1}, {"money", 1}, {"pt", 1}, {"struct", 4}, {"tparam", 8},
-	{"dur", 3}, {"amoney", 2},
+	{"dur", 3}, {"amoney", 2}, {"err", 3}, {"chanr", 1}, {"chans", 1},
 }
 
 // kinds whose encoding/json encoding is faithful (with the Faithful value generator)
@@ -177,7 +177,7 @@ func (c *genCtx) ty() *Ty {
 	r := c.r
 	for tries := 0; tries < 50; tries++ {
 		k := pickW(r, allKinds)
-		if c.depth > 0 && (k == "struct" || k == "func" || k == "chan" || k == "ifacelit" || k == "pt" || k == "money" || k == "time") && r.Intn(3) > 0 {
+		if c.depth > 0 && (k == "struct" || k == "func" || k == "chan" || k == "chanr" || k == "chans" || k == "ifacelit" || k == "pt" || k == "money" || k == "time") && r.Intn(3) > 0 {
 			continue
 		}
 		if c.allow != nil && !c.allow(k) {
@@ -221,7 +221,7 @@ func (c *genCtx) ty() *Ty {
 			if k == "array" && t.Elem.K != "int" && t.Elem.K != "string" {
 				t.Elem = T("int")
 			}
-			if k == "tuple2" && (t.Elem.K == "func" || t.Elem.K == "chan") {
+			if k == "tuple2" && (t.Elem.K == "func" || t.Elem.K == "chan" || t.Elem.K == "chanr" || t.Elem.K == "chans") {
 				t.Elem = T("int")
 			}
 		}
@@ -370,6 +370,21 @@ func (c *genCtx) fields(n int, onlyPrivate bool, onlyPublic bool) {
 			f.Tag = c.tag(f.Name, idx)
 		}
 		c.st.Fields = append(c.st.Fields, f)
+		// now and then declare a second field together with this one (`a, b T`): gombok then sees the type of `b` only through
+		// go/types, not through the source text of the field
+		if !f.Embedded && f.Tag == "" && f.Name != "_" && f.Ty.K != "tparam" && i+1 < n && r.Intn(8) == 0 {
+			names := fieldNames
+			if !isLowerFirst(f.Name) {
+				names = pubNames
+			}
+			g := Field{Name: c.freshName(used, names, "f"), Ty: f.Ty}
+			if !isLowerFirst(f.Name) {
+				g.Name = PublicName(g.Name)
+			}
+			c.st.Fields[len(c.st.Fields)-1].JoinNext = true
+			c.st.Fields = append(c.st.Fields, g)
+			i++
+		}
 	}
 }
 
